@@ -1,5 +1,5 @@
 (** C10 — correspondence ([agree]) and the spec-side predicate on the implementation's output ([holds]). *)
-From V Require Import Base.Util Gql.Ast Writer.Wop Ts.TsType Ts.TsDen C10.Model C10.Spec C10.Domain.
+From V Require Import Base.Util Gql.Ast Writer.Wop Ts.TsType Ts.TsDen C10.Model C10.Spec C10.Domain C10.JsdocProofs C10.NameProofs C10.ResolverProofs.
 
 (** result of one run of a Rust printer: the coalesced recorded operations, the returned error,
     or the caught panic (site numbered as in Model.res) *)
@@ -21,7 +21,12 @@ Inductive case :=
        (doc : tsdoc)
        (sruns : list (sopts * res (list wop)))            (* SchemaTypePrinter::print_document *)
        (rruns : list (ropts * nat * res (list wop)))      (* ResolverTypePrinter::print_document, n model plugins *)
-| CJsdoc (items : list (str * list wop)).                 (* jsdoc::print_description on each string *)
+| CJsdoc (items : list (str * list wop))                  (* jsdoc::print_description on each string *)
+(* names the implementation DECLARES, read off its recorded operations by the harness (the [write_for]
+   that follows a [write_for "export type "/"type "], resp. a [write "…type "] in the resolvers file) *)
+| CKeyword (locals : list str)                            (* schema file *)
+| CCapture (locals : list str) (scalar_texts : list str)  (* schema file + the TS texts of the scalars in use *)
+| CReserved (aliases : list str) (o : ropts).             (* resolvers file *)
 
 Definition agree (c : case) : bool :=
   match c with
@@ -29,6 +34,7 @@ Definition agree (c : case) : bool :=
       forallb (fun r => res_eqb (print_schema (fst r) doc) (snd r)) sruns
       && forallb (fun r => res_eqb (print_resolvers (fst (fst r)) (snd (fst r)) doc) (snd r)) rruns
   | CJsdoc items => forallb (fun i => wops_eqb (print_description (fst i)) (snd i)) items
+  | _ => true    (* the tie of these is the CDoc case of the same run *)
   end.
 
 (** ** the semantic reading, evaluated on a finite value domain *)
@@ -57,11 +63,40 @@ Definition model_exact (o : sopts) (doc : tsdoc) : bool :=
   | _ => true
   end.
 
+(** every "/*" is closed and no "*/" occurs outside a comment *)
+Fixpoint comments_ok (in_c : bool) (l : str) {struct l} : bool :=
+  match l with
+  | [] => negb in_c
+  | a :: t =>
+      match t with
+      | b :: r =>
+          if in_c then (if N.eqb a STAR && N.eqb b SLASHC then comments_ok false r else comments_ok true t)
+          else if N.eqb a SLASHC && N.eqb b STAR then comments_ok true r
+          else if N.eqb a STAR && N.eqb b SLASHC then false
+          else comments_ok false t
+      | [] => negb in_c
+      end
+  end.
+
+Definition run_ok (o : sopts) (doc : tsdoc) (out : res (list wop)) : bool :=
+  match out with
+  | Ok ops =>
+      comments_ok false (raw_text ops)
+      && (if wf_schema o doc && res_eqb (print_schema o doc) out then model_exact o doc else true)
+  | ErrScalar _ _ => negb (wf_schema o doc)          (* an error only when a scalar has no configured type *)
+  | Panic _ => negb (wf_schema o doc)                (* no panic on a well-formed schema *)
+  end.
+
 Definition holds (c : case) : bool :=
   match c with
-  | CDoc checked doc sruns _ =>
-      forallb (fun r => if wf_schema (fst r) doc then model_exact (fst r) doc else true) sruns
-  | _ => true
+  | CDoc checked doc sruns rruns =>
+      negb checked
+      || (forallb (fun r => run_ok (fst r) doc (snd r)) sruns
+          && forallb (fun r => match snd r with Ok ops => comments_ok false (raw_text ops) | _ => true end) rruns)
+  | CJsdoc items => forallb (fun i => option_eqb str_eqb (scan_block_comment (raw_text (snd i))) (Some [10%N])) items
+  | CKeyword locals => forallb (fun l => negb (mem l EMITTED_KEYWORDS)) locals
+  | CCapture locals texts => let bag := flat_map idents_of texts in forallb (fun l => negb (mem l bag)) locals
+  | CReserved aliases o => forallb (fun a => negb (mem a (resolver_reserved o))) aliases
   end.
 
 (** diagnosis aid (not used by the check): first differing operation of each run *)
@@ -83,4 +118,5 @@ Definition diagnose (c : case) :=
       map (fun r => diff_res (print_schema (fst r) doc) (snd r)) sruns
       ++ map (fun r => diff_res (print_resolvers (fst (fst r)) (snd (fst r)) doc) (snd r)) rruns
   | CJsdoc items => map (fun i => first_diff (coalesce (print_description (fst i))) (coalesce (snd i))) items
+  | _ => []
   end.
